@@ -204,8 +204,8 @@ def prop(pid, **kw):
 prop("C01", harness="h_exact",
      quick=dict(shards=16, cases=6000, env={"VERIF_MAXN": "14"},
                 extra_phases=[dict(shards=16, cases=300, env={"VERIF_MAXN": "40", "VERIF_MAXM": "110"}, seed_offset=400)]),
-     thorough=dict(shards=16, cases=60000, env={"VERIF_MAXN": "40"},
-                   extra_phases=[dict(shards=16, cases=1500, env={"VERIF_MAXN": "80", "VERIF_MAXM": "220"}, seed_offset=400)]),
+     thorough=dict(shards=16, cases=40000, env={"VERIF_MAXN": "20"},
+                   extra_phases=[dict(shards=16, cases=2500, env={"VERIF_MAXN": "80", "VERIF_MAXM": "220"}, seed_offset=400)]),
      rule="Generated simple graphs (12 shape families incl. empty/forest/multi-component, disjoint unions, pendant trees, "
           "vertex+edge-order permutations) x exact weight palettes x {double,int} x {signed,fvs_trees,iso_trees}; oracle: "
           "count==m-n+c (union-find), every cycle one simple cycle of the caller's graph (descriptor identity), GF(2) rank == count. "
@@ -215,7 +215,8 @@ prop("C01", harness="h_exact",
 prop("C02", harness="h_exact",
      quick=dict(shards=16, cases=6000, env={"VERIF_MAXN": "12"}, fuzz=dict(harness="fz_mcb", jobs=4, runs=8000, max_len=64),
                 extra_phases=[dict(shards=16, cases=250, env={"VERIF_MAXN": "36", "VERIF_MAXM": "100"}, seed_offset=400)]),
-     thorough=dict(shards=16, cases=60000, env={"VERIF_MAXN": "32"}, fuzz=dict(harness="fz_mcb", jobs=16, time=240, max_len=64)),
+     thorough=dict(shards=16, cases=40000, env={"VERIF_MAXN": "16"}, fuzz=dict(harness="fz_mcb", jobs=16, time=240, max_len=64),
+                   extra_phases=[dict(shards=16, cases=2500, env={"VERIF_MAXN": "48", "VERIF_MAXM": "140"}, seed_offset=400)]),
      rule="Same generator as C01; oracle: returned value == exact sum of emitted cycle weights, == optimum from an independent "
           "reference (brute force over all simple cycles + greedy GF(2) independence for n<=8,m<=22; textbook de Pina with plain "
           "Dijkstra on the explicit signed graph otherwise), sorted cycle-weight vector == optimum's. Non-trivial = dimension>=2 "
